@@ -27,6 +27,7 @@ type Case struct {
 	Pauses   []int     `json:"pauses,omitempty"` // producer schedule of the Emit-driven instance (per row)
 	Solo     []int     `json:"solo,omitempty"`   // history positions replayed alone on a fresh instance
 	Load     int       `json:"load,omitempty"`   // > 0: ordering-under-load run with this many rows
+	Conc     int       `json:"conc,omitempty"`   // > 0: this many goroutines call EmitSync concurrently (plus one Emit producer) on one instance
 	Throttle bool      `json:"throttle,omitempty"`
 	Expand   bool      `json:"expand,omitempty"`    // load run: expand overflow strategy with a tiny input buffer (channel migrations)
 	SlowChan bool      `json:"slow_chan,omitempty"` // load run: the channel consumer stalls now and then, so the 100-slot channel overflows
@@ -320,12 +321,17 @@ func genItems(t *rapid.T, forceID bool) []Item {
 				pool = []string{"-5", "-2.5", "-1", "-12", "-0.5"}
 			}
 			it.Lit = pick(t, pool, "nlit")
+		case k == 14:
+			// text concatenation over flat columns that some rows lack: the value is only required to be independent of the history
+			it.Kind = "concat"
+			a, b := pick(t, []string{"s", "t", "brand"}, "ca"), pick(t, []string{"s", "t", "brand", "zz"}, "cb")
+			it.Lit = a + " + " + pick(t, []string{"' '", "'-'", "''", "\"_\""}, "csep") + " + " + b
 		default:
 			it.Kind = "arith"
 			it.Ar = genArith(t)
 		}
 		// alias
-		needAlias := it.Kind == "num" || it.Kind == "arith" || star
+		needAlias := it.Kind == "num" || it.Kind == "arith" || it.Kind == "concat" || star
 		if it.Kind == "str" && (it.Lit == "" || rapid.IntRange(0, 3).Draw(t, "stralias") != 0) {
 			needAlias = true
 		}
@@ -446,6 +452,9 @@ func genCase(t *rapid.T) Case {
 			c.SlowChan = true
 		}
 		c.Expand = rapid.Bool().Draw(t, "loadexpand")
+	}
+	if x := rapid.IntRange(0, 23).Draw(t, "conc"); c.Load == 0 && (x == 7 || x == 13) {
+		c.Conc = rapid.IntRange(2, 4).Draw(t, "concn")
 	}
 	c.Items = genItems(t, c.Load > 0)
 	c.Where = genWhere(t)
@@ -756,6 +765,7 @@ func runCase(c Case) (res pbt.Result) {
 
 	// ---- instance A: EmitSync; oracle (a): reference filter + projection
 	var retA []string
+	perRow := make([]string, len(rows)) // what EmitSync answered for each row
 	passing, filtered := 0, 0
 	for i, r := range rows {
 		got, err := a.S.EmitSync(r.Go())
@@ -774,6 +784,7 @@ func runCase(c Case) (res pbt.Result) {
 		if got != nil {
 			retA = append(retA, canonRow(got))
 		}
+		perRow[i] = canonRow(got)
 		switch {
 		case want && got == nil:
 			res.Add(pbt.D("where-dropped", "%s: row %v satisfies the WHERE predicate but EmitSync returned no result", q, r))
@@ -875,8 +886,73 @@ func runCase(c Case) (res pbt.Result) {
 	if c.Load > 0 && len(res.Discs) == 0 {
 		runLoad(c, q, bar, &res)
 	}
+	// ---- oracle (e): the result of a row does not depend on what other callers do at the same time
+	if c.Conc > 0 && len(res.Discs) == 0 {
+		runConc(c, q, rows, perRow, &res)
+	}
 	classify(c, &res, passing, filtered)
 	return
+}
+
+// runConc: Conc goroutines call EmitSync for every row of the history (several rounds) while one producer feeds the
+// same rows through Emit; every EmitSync answer must be the one the row got when it was evaluated alone in sequence.
+func runConc(c Case, q string, rows []gen.Row, perRow []string, res *pbt.Result) {
+	e, err := run.Open(q)
+	if err != nil {
+		res.Add(pbt.D("execute-unstable", "%s accepted once, rejected later: %v", q, err))
+		return
+	}
+	defer e.Stop()
+	var wg sync.WaitGroup
+	var mu sync.Mutex
+	var first string
+	calls := int64(0)
+	rounds := 1 + 300/(len(rows)+1)
+	for g := 0; g < c.Conc; g++ {
+		wg.Add(1)
+		go func(g int) {
+			defer wg.Done()
+			defer func() {
+				if p := recover(); p != nil {
+					mu.Lock()
+					if first == "" {
+						first = fmt.Sprintf("EmitSync panicked: %v", p)
+					}
+					mu.Unlock()
+				}
+			}()
+			for r := 0; r < rounds; r++ {
+				for i := range rows {
+					j := (i + g) % len(rows)
+					got, err := e.S.EmitSync(rows[j].Go())
+					atomic.AddInt64(&calls, 1)
+					if s := canonRow(got); s != perRow[j] || err != nil {
+						mu.Lock()
+						if first == "" {
+							first = fmt.Sprintf("row %v: alone EmitSync gave %s, with %d concurrent callers it gave %s (err %v)", rows[j], clip(perRow[j]), c.Conc, clip(s), err)
+						}
+						mu.Unlock()
+						return
+					}
+				}
+			}
+		}(g)
+	}
+	wg.Add(1)
+	go func() {
+		defer wg.Done()
+		for r := 0; r < rounds; r++ {
+			for i := range rows {
+				e.Emit(rows[i].Go())
+			}
+		}
+	}()
+	wg.Wait()
+	res.Count("concurrent_emitsync_calls", calls)
+	res.Class("concurrent-emitsync")
+	if first != "" {
+		res.Add(pbt.D("concurrent-differs", "%s: %s", q, first))
+	}
 }
 
 func runLoad(c Case, q string, bar gen.Row, res *pbt.Result) {
@@ -1109,7 +1185,7 @@ var spec = pbt.Spec[Case]{
 	ID: "C05",
 	Rule: "generated: non-aggregate SELECT lists (*, flat columns, aliases incl. aliases that reuse a column name, nested paths d.a.b / arr[1] / arr[-1] / m['k'] / m[\"k\"] with and without alias, paths that cannot resolve, string literals, numeric literals with alias, 2-3 term arithmetic over numeric columns/paths with alias) and WHERE predicates (typed column or path compared with a literal by > >= < <= == = on numbers, == = on strings; AND/OR up to depth 2, optional parentheses); histories of 1-30 rows with ints/int64/floats/exotic widths/strings/bools/NULL/missing fields, nested maps and lists with NULL, absent and truncated parts. " +
 		"oracles: (a) reference Kleene filter + projection: a result exists iff the predicate is TRUE, key set == selected output names, missing source -> NULL, * -> all fields; (b) a sampled row alone on a fresh instance gives the same result as after its history; (c) EmitSync returns == its sync sink == sync sink of an Emit-driven instance == ToChannel() batches, as sequences; (d) 2% of cases: 1500-2500 rows with a slow async sink: sync sink == emission order, channel an order-preserving subsequence, and complete whenever the consumer never lagged more than 85 of the 100 slots. " +
-		"non-trivial = history contains a passing and a filtered row and the query references a nested path or a field some row lacks; distinct by case hash",
+		"(e) 8% of cases: 2-4 goroutines call EmitSync for the rows of the history concurrently with an Emit producer on one instance; every answer equals the sequential one. non-trivial = history contains a passing and a filtered row and the query references a nested path or a field some row lacks; distinct by case hash",
 	Assumptions: []string{
 		"input never dropped: WithOverflowStrategy(block,0)",
 		"a barrier row the reference accepts is appended; when the sync sink has seen as many results as EmitSync produced, the single processing goroutine has finished the history",
